@@ -54,7 +54,8 @@ TECHNIQUE = ("runtime monitoring: model-based oracle (expected merged tree from 
 REQUIRED_COUNTERS = ["placements_judged", "runtime_members_checked", "same_kind_pairs_checked", "kind_mismatches_checked",
                      "stub_only_members_checked", "stub_annotations_checked", "docstring_rule_checked", "overload_lists_checked",
                      "orders_compared", "alias_resolution_windows", "merge_stubs_calls_in_window", "aliases_state_checked", "nested_class_pairs_checked",
-                     "merge_into_alias_target_seen"]
+                     "merge_into_alias_target_seen", "listings_with_py_pyi_pair_stub_first",
+                     "listings_with_py_pyi_pair_runtime_first"]
 EXHAUSTIVE = {"quick": False, "thorough": False}
 ASSUMPTIONS = ["stub has no annotation where the runtime has one: keeping or dropping the runtime annotation both accepted",
                "a runtime import with same-named non-import stubs: the documented 'merge into the alias target' is allowed "
@@ -557,13 +558,21 @@ def allowed_resolutions(prefix: str, r: dict, s: dict) -> set[str]:
 
 # ------------------------------------------------------------------------------------------
 # placements
+PAIRS_ORDERED = {"stub_first": 0, "runtime_first": 0}
+
+
 def stub_first_policy(stub_first: bool):  # noqa: ANN201
     """Listing order: names sorted, but of x.py / x.pyi the stub comes first (or second). Nothing else moves."""
     def policy(directory, names):  # noqa: ANN001, ARG001
         def key(n):  # noqa: ANN001
             stem, ext = os.path.splitext(n)
             return (stem, {".py": 1 if stub_first else 0, ".pyi": 0 if stub_first else 1}.get(ext, 2), ext)
-        return sorted(names, key=key)
+        out = sorted(names, key=key)
+        for i, n in enumerate(out[:-1]):
+            if {os.path.splitext(n)[1], os.path.splitext(out[i + 1])[1]} == {".py", ".pyi"} \
+                    and os.path.splitext(n)[0] == os.path.splitext(out[i + 1])[0]:
+                PAIRS_ORDERED["stub_first" if n.endswith(".pyi") else "runtime_first"] += 1
+        return out
     return policy
 
 
@@ -626,6 +635,10 @@ def merge_api(src: dict, name: str, rkey: str, skey: str, order: int):  # noqa: 
 FINDINGS = ["C19-stub-overloads-on-unresolvable-import-abort-merge", "C19-overloads-of-implemented-stub-function-not-merged"]
 
 
+ABORT_FALLOUT = {"runtime-module-lost", "annotation-not-from-stubs", "docstring-not-filled", "stub-only-member-missing",
+                 "overloads-not-from-stubs"}
+
+
 def unresolvable_import_with_stub_overloads(r: dict, s: dict, placement: str) -> list[str]:
     """Module-level names that are a runtime import whose target is not loaded at merge time while the stubs hold
     @overload signatures without implementation for the same name."""
@@ -649,15 +662,6 @@ def _scope_at(scope: dict, rel: list[str]) -> dict | None:
 
 def classify(problem: dict, r: dict, s: dict, placement: str, module_path: str) -> str | None:
     """Mechanism classifiers for known findings (see known_findings.d/C19.json)."""
-    # C19-stub-overloads-on-unresolvable-import-abort-merge: _merge_stubs_overloads assigns `.overloads` through the runtime
-    # import; resolving it raises AliasResolutionError, which aborts the merge of this module half-way (propagating from
-    # merge_stubs / load, or swallowed by set_member, which then keeps whichever module came second)
-    if unresolvable_import_with_stub_overloads(r, s, placement):
-        if problem["kind"] == "exception":
-            if "AliasResolutionError" in str(problem["observed"]) and "_merge_stubs_overloads" in str(problem.get("traceback")):
-                return FINDINGS[0]
-        elif problem["path"] == module_path or problem["path"].startswith(module_path + ".") or problem["path"].startswith(module_path + "("):
-            return FINDINGS[0]
     # C19-overloads-of-implemented-stub-function-not-merged: the stub function of the same name has @overload signatures *and*
     # an implementation signature; the merged function kept the runtime's overload list
     if problem["kind"] == "overloads-not-from-stubs":
@@ -667,6 +671,18 @@ def classify(problem: dict, r: dict, s: dict, placement: str, module_path: str) 
             rm, sm = rs["members"].get(rel[-1]), ss["members"].get(rel[-1])
             if rm and sm and rm["kind"] == sm["kind"] == "func" and sm["overloads"] and problem["observed"] == rm["overloads"]:
                 return FINDINGS[1]
+    # C19-stub-overloads-on-unresolvable-import-abort-merge: _merge_stubs_overloads assigns `.overloads` through the runtime
+    # import; resolving it raises AliasResolutionError, which aborts the merge of this module after the docstring and before
+    # the members: the error propagates from merge_stubs / load (top-level module), or is swallowed by set_member, which then
+    # keeps whichever module came second (sub-module), or by the enclosing package merge (stubs package).  The fall-out is
+    # therefore: that exception, the runtime module replaced by the stubs module, or stub information missing below the module.
+    if unresolvable_import_with_stub_overloads(r, s, placement):
+        if problem["kind"] == "exception":
+            if "AliasResolutionError" in str(problem["observed"]) and "_merge_stubs_overloads" in str(problem.get("traceback")):
+                return FINDINGS[0]
+        elif problem["kind"] in ABORT_FALLOUT and (
+                problem["path"] == module_path or problem["path"].startswith((module_path + ".", module_path + "("))):
+            return FINDINGS[0]
     return None
 
 
@@ -763,6 +779,9 @@ def run_case(rec, case: dict) -> None:  # noqa: ANN001, C901, PLR0912, PLR0915
                               {"at": d[0], "runtime_first": json.dumps(d[1], sort_keys=True)[:300],
                                "stubs_first": json.dumps(d[2], sort_keys=True)[:300]} if d else None, "identical canonical JSON")
             rec.count("placements_judged")
+            for k in PAIRS_ORDERED:
+                rec.count("listings_with_py_pyi_pair_" + k, PAIRS_ORDERED[k])
+                PAIRS_ORDERED[k] = 0
     finally:
         _WINDOW = None
         os.chdir(old_cwd)
